@@ -92,7 +92,7 @@ func payload(r *vrand.Rand, typ, n int) []byte {
 		return out
 	}
 	if r.Bool() {
-		return r.Bytes(n)
+		return r.Shaped(n)
 	}
 	out := make([]byte, n)
 	pat := r.Bytes(r.Range(1, 32))
